@@ -1,7 +1,8 @@
 #!/bin/bash
 # usage: triage.sh <Cxx> <i>   -- confirm a sub-agent mutant in a fresh scratch worktree, then run every check against it
 export GOFLAGS=-mod=mod GOPROXY=off GOSUMDB=off GOTOOLCHAIN=local; unset GOWORK
-P=$1; I=$2; SRC=/tmp/wt-$P/MUTANT$I; VW=/tmp/vw-$P-$I
+P=$1; I=$2; PRE=${3:-wt}; SRC=/tmp/$PRE-$P/MUTANT$I; VW=/tmp/vw-$PRE-$P-$I
+RACE=""; grep -q -- "-race" $SRC/README.md 2>/dev/null && RACE="-race"
 [ -f $SRC/patch.diff ] || { echo "no patch at $SRC"; exit 2; }
 demo=$(ls $SRC/*_test.go 2>/dev/null | head -1)
 # where does the demo go? default: repo root; READMEs that say internal/<pkg> are honoured
@@ -19,14 +20,13 @@ git -C /repo worktree add -q --detach $VW HEAD || exit 2
 trap 'git -C /repo worktree remove --force '$VW' 2>/dev/null; rm -rf '$VW EXIT
 cd $VW
 cp "$demo" $dest/zz_demo_test.go
-base=$(go test -vet=off -count=1 -run 'Test' ./$dest 2>&1 | tail -3 | grep -c "^ok")
-go test -vet=off -count=1 ./$dest > /tmp/triage-base.log 2>&1; basefail=$(grep -c "^--- FAIL" /tmp/triage-base.log)
+go test $RACE -vet=off -count=1 ./$dest > /tmp/triage-base-$P-$I.log 2>&1; basefail=$(grep -c "^--- FAIL\|^FAIL\|panic:" /tmp/triage-base-$P-$I.log)
 rm -f $dest/zz_demo_test.go
 git apply $SRC/patch.diff || { echo "RESULT $P-$I patch-does-not-apply"; exit 1; }
 go build ./... || { echo "RESULT $P-$I does-not-compile"; exit 1; }
 suite=$(go test -vet=off -count=1 ./... 2>&1 | grep -v "no test files" | grep -vc "^ok")
 cp "$demo" $dest/zz_demo_test.go
-go test -vet=off -count=1 ./$dest > /tmp/triage-mut.log 2>&1; mutfail=$(grep -c "^--- FAIL" /tmp/triage-mut.log)
+go test $RACE -vet=off -count=1 ./$dest > /tmp/triage-mut-$P-$I.log 2>&1; mutfail=$(grep -c "^--- FAIL\|^FAIL\|panic:" /tmp/triage-mut-$P-$I.log)
 rm -f $dest/zz_demo_test.go
 echo "CONFIRM $P-$I demo_pkg=$dest demo_fails_at_HEAD=$basefail suite_nonok_with_patch=$suite demo_fails_with_patch=$mutfail"
 if [ "$basefail" != "0" ] || [ "$suite" != "0" ] || [ "$mutfail" = "0" ]; then echo "RESULT $P-$I NOT-CONFIRMED"; exit 1; fi
